@@ -44,6 +44,27 @@ def races(ctx, path):
     return n
 
 
+def crash_in_library(path):
+    """first stack after the last panic / fatal error line has a go-imap frame: returns its head, else None"""
+    if not os.path.exists(path):
+        return None
+    txt = open(path, errors="replace").read()
+    i = max(txt.rfind("\npanic: "), txt.rfind("\nfatal error: "))
+    if i < 0:
+        if txt.startswith("panic: ") or txt.startswith("fatal error: "):
+            i = 0
+        else:
+            return None
+    rest = txt[i:]
+    g = rest.find("\ngoroutine ")
+    if g < 0:
+        return None
+    stack = rest[g + 1:].split("\n\n")[0]
+    if "github.com/emersion/go-imap/v2/" not in stack:
+        return None
+    return " ".join((rest[:g] + " " + stack).split())[:500]
+
+
 def run(ctx):
     quick = ctx.tier == "quick"
     r = ctx.tlc_ok("ClientConc", "ClientConc_mc.cfg", timeout=600)
@@ -79,9 +100,18 @@ def run(ctx):
     tr = os.path.join(ctx.scratch, "stress.ndjson")
     recs, rc, _ = ctx.harness(binr, ["stress", tr, "-seed", ctx.seed, "-rounds", 150 if quick else 2500], timeout=2400,
                               allow_fail=True, stderr_to=errp)
-    s2 = ctx.summary(recs)
     ctx.take_mismatches(recs)
     nrace += races(ctx, errp)
+    if not any(r.get("kind") == "summary" for r in recs):
+        # the stress process died: a goroutine brought down inside go-imap is an observation about go-imap
+        # (a library goroutine that panics cannot be recovered by the caller); anything else is infrastructure
+        why = crash_in_library(errp)
+        if not why:
+            raise vlib.Infra("stress harness died without summary, not inside go-imap")
+        ctx.mismatch("process-crash", "the process died during the stress run: " + why, None)
+        ctx.finish(rule="stress run crashed inside go-imap; schedules re-enacted before", extra={"mc_states": r.distinct, "race_reports": nrace})
+        return
+    s2 = ctx.summary(recs)
     ok, at, rec, _ = ctx.validate_trace("ClientConcTrace", "ClientConcTrace.cfg", tr, timeout=1500)
     demo = "skipped"
     if ok:
